@@ -409,9 +409,18 @@ func bubbleState() (fingerprint string, total, active, nonDurable int, dump stri
 	buf = buf[:runtime.Stack(buf, true)]
 	dump = string(buf)
 	var parts []string
+	untaggedBusy := 0
 	for _, m := range bubbleGoroutine.FindAllStringSubmatch(dump, -1) {
 		state := m[2]
 		if !strings.Contains(state, "synctest bubble") {
+			// The runtime detaches a goroutine from its bubble while it starts or assists a
+			// garbage collection; such a goroutine is listed without the bubble tag. Any
+			// untagged goroutine that is not blocked (other than the one taking this dump)
+			// therefore counts as activity: the verdict can only become more cautious.
+			f := strings.SplitN(state, ",", 2)[0]
+			if strings.HasPrefix(f, "running") || strings.HasPrefix(f, "runnable") {
+				untaggedBusy++
+			}
 			continue
 		}
 		total++
@@ -423,6 +432,9 @@ func bubbleState() (fingerprint string, total, active, nonDurable int, dump stri
 			nonDurable++
 		}
 		parts = append(parts, m[1]+":"+first)
+	}
+	if untaggedBusy > 1 { // one is the caller itself
+		active += untaggedBusy - 1
 	}
 	sort.Strings(parts)
 	return strings.Join(parts, " "), total, active, nonDurable, dump
